@@ -17,7 +17,7 @@ import (
 func init() { register("C01", c01) }
 
 func c01(c *core.Check) {
-	c.Explain = "Structural necessary conditions of 'rendering returns': (R1) every explicit panic that is the default of a switch or if-chain over a CSS keyword, an enum constant or a dynamic type is unreachable because the value set of its producers (validator returns refined by path conditions, initial values, computer results, field-based store sets, caller arguments; all constants of the enum; all module types implementing the interface) is included in the handled cases, with a reasoned table of the defaults that rest on invariants this analysis cannot derive; (R2) no integer division or modulo by a possibly zero divisor anywhere in the module; (R3) reference-following recursions are cycle-guarded; (R4) anticipated nil dereferences are guarded; (R5) the re-pagination loop is counted; (R6) inventory of the remaining explicit panics. Page-loop progress, stack depth of structural recursion, index errors and nil dereferences in general are not decided. Also decided: (R7) non-empty preconditions of panicking constructors; (R8) the guard contract of the SVG path interpreter (hasSetsOrMore accepts whole groups only); (R9) the running quote depth, an index, never becomes negative."
+	c.Explain = "Structural necessary conditions of 'rendering returns': (R1) every explicit panic that is the default of a switch or if-chain over a CSS keyword, an enum constant or a dynamic type is unreachable because the value set of its producers (validator returns refined by path conditions, initial values, computer results, field-based store sets, caller arguments; all constants of the enum; all module types implementing the interface) is included in the handled cases, with a reasoned table of the defaults that rest on invariants this analysis cannot derive; (R2) no integer division or modulo by a possibly zero divisor anywhere in the module; (R3) reference-following recursions are cycle-guarded; (R4) anticipated nil dereferences are guarded; (R5) the re-pagination loop is counted; (R6) inventory of the remaining explicit panics. Page-loop progress, stack depth of structural recursion, index errors and nil dereferences in general are not decided. Also decided: (R7) non-empty preconditions of panicking constructors; (R8) the guard contract of the SVG path interpreter (hasSetsOrMore accepts whole groups only); (R9) the running quote depth, an index, never becomes negative. Also decided: (R10) every strings.Repeat of css/counters and text has a count clamped by or tested against a constant; (R11) the automatic range of counter styles is unbounded, so the decimal last resort never falls back to itself; (R12) no function calls itself twice in one activation on what may be the same subtree (time exponential in the depth); (R13) the recursive descent of the CSS tokenizer is bounded by a depth counter; (R14) the SVG tree is built with a bounded depth. Not decided: the stack depth of the layout recursion over HTML nesting, the cost of nested flex containers."
 	r2 := c.Rule("R2", "no integer division or modulo by a divisor that may be zero anywhere in the module (an integer division by zero is a run-time panic): the divisor is a non-zero constant, is tested on every path, is non-zero by construction, or every caller passes a non-zero argument; a % used as an index also needs a non-negative dividend", 26)
 	divisionRuleNotes(c, r2, func(fn *ssa.Function) bool { return true }, c01DivisionNotes)
 
